@@ -108,9 +108,11 @@ def refine(ex, test_ast, env, label):
     return env
 
 def _pure_funcs():
-    import textwrap, html, os.path
+    import textwrap, html, os.path, urllib.parse
     return {"textwrap.dedent": textwrap.dedent, "html.escape": html.escape, "os.path.basename": os.path.basename,
-            "os.path.dirname": os.path.dirname, "os.path.join": os.path.join}
+            "os.path.dirname": os.path.dirname, "os.path.join": os.path.join, "urllib.parse.urlsplit": urllib.parse.urlsplit,
+            "urllib.parse.unquote_to_bytes": urllib.parse.unquote_to_bytes, "urllib.parse.SplitResult": urllib.parse.SplitResult,
+            "urllib.parse.urlparse": urllib.parse.urlparse, "urllib.parse.unquote": urllib.parse.unquote}
 
 
 PURE_FUNCS = _pure_funcs()
@@ -119,7 +121,8 @@ MUTATORS = {"append", "add", "appendleft", "extend", "insert", "pop", "popleft",
 PURE_METHODS = {"lower", "upper", "strip", "lstrip", "rstrip", "startswith", "endswith", "casefold",
                 "split", "isdigit", "isnumeric", "isdecimal", "find", "get", "keys", "items", "values", "count",
                 "join", "encode", "decode", "replace", "partition", "rpartition", "rsplit", "title", "isalpha", "isalnum",
-                "isspace", "isupper", "islower", "rfind", "index", "zfill", "hex", "capitalize", "swapcase"}
+                "isspace", "isupper", "islower", "rfind", "index", "zfill", "hex", "capitalize", "swapcase", "group", "groups",
+                "translate", "isascii", "removeprefix", "removesuffix", "expandtabs", "splitlines"}
 
 
 def _is_builtin_class(name):
@@ -418,6 +421,8 @@ class Explorer:
             base = self.ev(e.value, env)
             if isinstance(base, SpecObj) and hasattr(base, e.attr):
                 return getattr(base, e.attr)
+            if isinstance(base, tuple) and e.attr in getattr(base, "_fields", ()):      # named tuple (urlsplit result)
+                return getattr(base, e.attr)
             return UNKNOWN
         if isinstance(e, ast.Call):
             v = self._inline(e, env)
@@ -440,6 +445,16 @@ class Explorer:
                 bb = self.ev(e.func.value, env)
                 if isinstance(bb, ByteBuf):
                     return bb.content if e.func.attr == "getvalue" else len(bb.content)
+            if isinstance(e.func, ast.Attribute) and e.func.attr == "_replace" and not e.args:
+                recv = self.ev(e.func.value, env)
+                if isinstance(recv, tuple) and hasattr(recv, "_fields"):
+                    kws = {k.arg: self.ev(k.value, env) for k in e.keywords if k.arg}
+                    if any(v is UNKNOWN for v in kws.values()) or any(k.arg is None for k in e.keywords):
+                        return UNKNOWN
+                    try:
+                        return recv._replace(**kws)
+                    except Exception:
+                        return UNKNOWN
             if isinstance(e.func, ast.Attribute) and e.func.attr == "format":
                 recv = self.ev(e.func.value, env)
                 if isinstance(recv, str):
@@ -485,7 +500,8 @@ class Explorer:
                 args = [self.ev(a, env) for a in e.args]
                 if recv is UNKNOWN or any(a is UNKNOWN for a in args):
                     return UNKNOWN
-                if isinstance(recv, (str, bytes, tuple, dict)):
+                import re as _re2
+                if isinstance(recv, (str, bytes, tuple, dict)) or (isinstance(recv, _re2.Match) and e.func.attr in ("group", "groups")):
                     try:
                         return getattr(recv, e.func.attr)(*args)
                     except Exception:
